@@ -412,6 +412,152 @@ Proof.
     exfalso. apply NE. apply H. split; assumption.
 Qed.
 
+
+(* ---------------------------------------------------------------- _decompose_qr, relative to a witness *)
+Lemma lsum_pick (sel : list key) (k : key) (F : key -> R) :
+  NoDup sel -> In k sel -> lsum sel (fun s => if keqb k s then F s else 0) = F k.
+Proof.
+  intros ND Hin.
+  transitivity (lsum sel (fun s => if keqb s k then F k else 0)).
+  { apply lsum_ext. intros s _. destruct (keqb_spec k s) as [->|NE]; [now rewrite keqb_refl|].
+    destruct (keqb_spec s k); [congruence|reflexivity]. }
+  rewrite lsum_indicator by assumption. destruct (memb_spec k sel); [reflexivity|contradiction].
+Qed.
+
+(* a weighted sum of products Drow(row key) * G(column key), regrouped by distinct keys *)
+Lemma bilinear_expand {X} (l : list X) (kr kc : X -> key) (f : X -> R) (qrows qcols : list key) (Drow G : key -> R) :
+  NoDup qrows -> NoDup qcols -> (forall x, In x l -> In (kr x) qrows /\ In (kc x) qcols) ->
+  lsum l (fun x => f x * (Drow (kr x) * G (kc x)))
+  = lsum qrows (fun rk => lsum qcols (fun ck =>
+      Drow rk * G ck * lsum l (fun x => if keqb (kr x) rk && keqb (kc x) ck then f x else 0))).
+Proof.
+  intros NDr NDc. induction l as [|x l IH]; intros Hin.
+  - cbn [Ttno.lsum]. symmetry. apply lsum_zero. intros rk _. apply lsum_zero. intros ck _. ring.
+  - cbn [Ttno.lsum]. rewrite IH by (intros; apply Hin; now right).
+    destruct (Hin x (in_eq _ _)) as [Hr Hc].
+    transitivity (lsum qrows (fun rk => lsum qcols (fun ck =>
+        (if keqb (kr x) rk then (if keqb (kc x) ck then Drow rk * G ck * f x else 0) else 0)))
+      + lsum qrows (fun rk => lsum qcols (fun ck =>
+        Drow rk * G ck * lsum l (fun x0 => if keqb (kr x0) rk && keqb (kc x0) ck then f x0 else 0)))).
+    { f_equal.
+      transitivity (lsum qrows (fun rk => if keqb (kr x) rk then lsum qcols (fun ck => if keqb (kc x) ck then Drow rk * G ck * f x else 0) else 0)).
+      - rewrite (lsum_pick qrows (kr x) (fun rk => lsum qcols (fun ck => if keqb (kc x) ck then Drow rk * G ck * f x else 0)) NDr Hr).
+        rewrite (lsum_pick qcols (kc x) (fun ck => Drow (kr x) * G ck * f x) NDc Hc). ring.
+      - apply lsum_ext. intros rk _. destruct (keqb (kr x) rk); [reflexivity|]. symmetry. apply lsum_zero. reflexivity. }
+    rewrite <- lsum_add. apply lsum_ext. intros rk _. rewrite <- lsum_add. apply lsum_ext. intros ck _.
+    destruct (keqb (kr x) rk), (keqb (kc x) ck); cbn [andb]; ring.
+Qed.
+
+Definition rcol (e : rentry R) : key := snd (fst e).
+Definition ridx (e : rentry R) : nat := fst (fst e).
+
+(* admissible factorisation witness for the table t split after w columns *)
+Definition qr_valid (w : nat) (t : table) (qrows qcols : list key) (q : bond) (r : list (rentry R)) : Prop :=
+  NoDup qrows /\ NoDup qcols /\
+  (forall x, In x t -> In (rkey R w x) qrows /\ In (ckey R w x) qcols) /\
+  (forall e p, In e r -> In p (nth (ridx e) q []) -> In (fst p) qrows) /\
+  (forall e, In e r -> In (rcol e) qcols /\ exists x, In x t /\ ckey R w x = rcol e) /\
+  (forall rk ck, In rk qrows -> In ck qcols -> qr_entry R q r rk ck = gamma_entry R w t rk ck).
+
+Theorem one_site_qr_sound (w : nat) (t : table) (qrows qcols : list key) (q : bond) (r : list (rentry R)) (Drow G : key -> R) :
+  qr_valid w t qrows qcols q r ->
+  lsum (qr_table R r) (fun y => snd y * Dout_of Drow q (hd O (fst y)) * G (tl (fst y)))
+  = lsum t (fun x => snd x * Drow (rkey R w x) * G (ckey R w x)).
+Proof.
+  intros [NDr [NDc [Ht [Hq [Hr Hex]]]]].
+  (* right-hand side, regrouped *)
+  transitivity (lsum qrows (fun rk => lsum qcols (fun ck => Drow rk * G ck * gamma_entry R w t rk ck))).
+  2:{ unfold gamma_entry. rewrite <- (bilinear_expand t (rkey R w) (ckey R w) (fun x => snd x) qrows qcols Drow G NDr NDc Ht).
+      apply lsum_ext. intros; ring. }
+  (* left-hand side: expand the out-operators into their summands *)
+  transitivity (lsum (flat_map (fun e => map (fun p => (e, p)) (nth (ridx e) q [])) r)
+                     (fun ep => (snd (fst ep) * snd (snd ep)) * (Drow (fst (snd ep)) * G (rcol (fst ep))))).
+  { unfold qr_table. rewrite lsum_map, lsum_flat_map. apply lsum_ext. intros e _. cbn [fst snd hd tl].
+    unfold Dout_of, den_outop. rewrite lsum_map. cbn [fst snd]. fold (ridx e) (rcol e).
+    rewrite <- lsum_scale_l, <- lsum_scale_r. apply lsum_ext. intros p _. unfold ridx, rcol, key in *. ring. }
+  rewrite (bilinear_expand _ (fun ep => fst (snd ep)) (fun ep => rcol (fst ep)) (fun ep => snd (fst ep) * snd (snd ep))
+             qrows qcols Drow G NDr NDc).
+  2:{ intros [e p] Hin. apply in_flat_map in Hin. destruct Hin as [e' [He' Hp]]. apply in_map_iff in Hp.
+      destruct Hp as [p' [[= <- <-] Hp']]. cbn [fst snd]. split; [eapply Hq; eassumption|apply Hr; assumption]. }
+  apply lsum_ext. intros rk Hrk. apply lsum_ext. intros ck Hck. f_equal.
+  rewrite <- (Hex rk ck Hrk Hck). unfold qr_entry. rewrite lsum_flat_map. apply lsum_ext. intros e _.
+  rewrite lsum_map. cbn [fst snd]. fold (ridx e) (rcol e).
+  destruct (keqb (rcol e) ck).
+  - rewrite <- lsum_scale_l. apply lsum_ext. intros p _. rewrite andb_true_r. destruct (keqb (fst p) rk); ring.
+  - apply lsum_zero. intros p _. now rewrite andb_false_r.
+Qed.
+
+(* ---------------------------------------------------------------- steps with either kind of witness *)
+Definition svalid_step (mk : nat * nat) (t : table) (sw : swit R) : Prop :=
+  match sw with
+  | WG w => valid_step mk t w = true
+  | WQ _ qrows qcols q r => qr_valid (rowwidth (fst mk) (snd mk)) (prep (fst mk) t) qrows qcols q r
+  end.
+Fixpoint svalid_run (nodes : list (nat * nat)) (t : table) (sws : list (swit R)) : Prop :=
+  match nodes with
+  | [] => True
+  | n :: ns => svalid_step n t (hd (swit0 R) sws) /\ svalid_run ns (snd (sstep n t (hd (swit0 R) sws))) (tl sws)
+  end.
+
+Lemma sstep_rect n mk t sw : rect n t -> svalid_step mk t sw ->
+  rect (S ((if Nat.eqb (fst mk) 0 then S n else n) - rowwidth (fst mk) (snd mk))) (snd (sstep mk t sw)).
+Proof.
+  destruct sw as [w|qrows qcols q r]; cbn [sstep svalid_step]; [apply step_rect|].
+  intros Hr [_ [_ [_ [_ [Hc _]]]]]. cbn [snd]. apply Forall_forall. intros y Hy.
+  apply in_map_iff in Hy. destruct Hy as [y0 [<- Hy0]]. unfold qr_table in Hy0. apply in_map_iff in Hy0.
+  destruct Hy0 as [e [<- He]]. cbn [fst]. rewrite roll_left1_length. cbn [length]. f_equal.
+  destruct (Hc e He) as [_ [x [Hx E]]]. unfold rcol in E.
+  transitivity (length (ckey R (rowwidth (fst mk) (snd mk)) x)); [now rewrite E|].
+  unfold ckey. rewrite skipn_length. f_equal.
+  pose proof (prep_rect n (fst mk) t Hr) as Hp. unfold rect in Hp. rewrite Forall_forall in Hp. now apply Hp.
+Qed.
+
+Lemma sstep_sound mk t sw (Drow G : key -> R) : svalid_step mk t sw ->
+  lsum (snd (sstep mk t sw)) (fun y => snd y * Dout_of Drow (fst (sstep mk t sw)) (olast y) * G (oinit y))
+  = lsum (prep (fst mk) t) (fun x => snd x * Drow (rkey R (rowwidth (fst mk) (snd mk)) x) * G (ckey R (rowwidth (fst mk) (snd mk)) x)).
+Proof.
+  destruct sw as [w|qrows qcols q r]; cbn [sstep svalid_step]; [apply step_sound|].
+  intros Hv. rewrite <- (one_site_qr_sound _ _ _ _ _ _ Drow G Hv). cbn [fst snd]. rewrite lsum_map.
+  apply lsum_ext. intros y Hy. unfold qr_table in Hy. apply in_map_iff in Hy. destruct Hy as [e [<- _]].
+  unfold olast, oinit. cbn [fst snd hd tl]. now rewrite roll_left1_cons, last_last, removelast_last.
+Qed.
+
+Lemma sloop_app l1 l2 : forall (t : table) sws,
+  sloop (l1 ++ l2) t sws =
+  (fst (sloop l1 t sws) ++ fst (sloop l2 (snd (sloop l1 t sws)) (skipn (length l1) sws)),
+   snd (sloop l2 (snd (sloop l1 t sws)) (skipn (length l1) sws))).
+Proof.
+  induction l1 as [|a l1 IH]; intros t sws; cbn [app sloop length fst snd].
+  - cbn [skipn]. now destruct (sloop l2 t sws).
+  - rewrite IH. cbn [fst snd]. rewrite skipn_S_tl. reflexivity.
+Qed.
+Lemma svalid_run_app l1 l2 : forall (t : table) sws,
+  svalid_run (l1 ++ l2) t sws <-> svalid_run l1 t sws /\ svalid_run l2 (snd (sloop l1 t sws)) (skipn (length l1) sws).
+Proof.
+  induction l1 as [|a l1 IH]; intros t sws; cbn [app svalid_run sloop length fst snd].
+  - cbn [skipn]. tauto.
+  - rewrite IH, skipn_S_tl. tauto.
+Qed.
+Lemma sloop_length l : forall (t : table) sws, length (fst (sloop l t sws)) = length l.
+Proof. induction l as [|a l IH]; intros t sws; cbn [sloop fst length]; [reflexivity|]. now rewrite IH. Qed.
+
+(* a run with covers only is a run of the general loop *)
+Lemma map_tl' {X Y} (f : X -> Y) l : map f (tl l) = tl (map f l).
+Proof. destruct l; reflexivity. Qed.
+Lemma hd_map_WG ws : hd (swit0 R) (map (@WG R) ws) = WG (hd ([], []) ws).
+Proof. destruct ws; reflexivity. Qed.
+Lemma sloop_WG l : forall (t : table) ws, sloop l t (map (@WG R) ws) = loop l t ws.
+Proof.
+  induction l as [|a l IH]; intros t ws; cbn [sloop loop]; [reflexivity|].
+  rewrite hd_map_WG. cbn [sstep]. rewrite <- map_tl', IH. reflexivity.
+Qed.
+Lemma svalid_run_WG l : forall (t : table) ws, valid_run l t ws = true -> svalid_run l t (map (@WG R) ws).
+Proof.
+  induction l as [|a l IH]; intros t ws H; cbn [svalid_run valid_run] in *; [exact I|].
+  apply andb_true_iff in H. destruct H as [H1 H2]. rewrite hd_map_WG. cbn [svalid_step sstep]. split; [exact H1|].
+  rewrite <- map_tl'. now apply IH.
+Qed.
+
 (* ---------------------------------------------------------------- the invariant, tree by tree *)
 Lemma den_node k ch bs j s :
   den (Node k ch) bs j s =
@@ -431,18 +577,18 @@ Proof. reflexivity. Qed.
 Definition Wd (cs : list tree) : nat := list_sum (map width cs).
 
 Definition tree_ok (t : tree) : Prop := forall (T : table) ws n,
-  rect n T -> (width t <= n)%nat -> valid_run (pmk t) T ws = true ->
-  rect (n - width t + 1) (snd (loop (pmk t) T ws)) /\
+  rect n T -> (width t <= n)%nat -> svalid_run (pmk t) T ws ->
+  rect (n - width t + 1) (snd (sloop (pmk t) T ws)) /\
   forall (G : key -> R) s, length s = width t ->
-  lsum (snd (loop (pmk t) T ws)) (fun y => snd y * den t (fst (loop (pmk t) T ws)) (olast y) s * G (oinit y))
+  lsum (snd (sloop (pmk t) T ws)) (fun y => snd y * den t (fst (sloop (pmk t) T ws)) (olast y) s * G (oinit y))
   = lsum T (fun x => snd x * kdelta R (firstn (width t) (fst x)) s * G (skipn (width t) (fst x))).
 
 Definition forest_ok (cs : list tree) : Prop := forall (T : table) ws n,
-  rect n T -> (Wd cs <= n)%nat -> valid_run (flat_map pmk cs) T ws = true ->
-  rect (n - Wd cs + length cs) (snd (loop (flat_map pmk cs) T ws)) /\
+  rect n T -> (Wd cs <= n)%nat -> svalid_run (flat_map pmk cs) T ws ->
+  rect (n - Wd cs + length cs) (snd (sloop (flat_map pmk cs) T ws)) /\
   forall (G : key -> R) s, length s = Wd cs ->
-  lsum (snd (loop (flat_map pmk cs) T ws))
-       (fun y => snd y * den_forest R (@den R) cs (fst (loop (flat_map pmk cs) T ws)) (lastn (length cs) (fst y)) s
+  lsum (snd (sloop (flat_map pmk cs) T ws))
+       (fun y => snd y * den_forest R (@den R) cs (fst (sloop (flat_map pmk cs) T ws)) (lastn (length cs) (fst y)) s
                  * G (initn (length cs) (fst y)))
   = lsum T (fun x => snd x * kdelta R (firstn (Wd cs) (fst x)) s * G (skipn (Wd cs) (fst x))).
 
@@ -463,14 +609,14 @@ Lemma forest_ok_cons c cs : tree_ok c -> forest_ok cs -> forest_ok (c :: cs).
 Proof.
   intros Hc Hcs T ws n Hr Hw Hv.
   assert (EW : Wd (c :: cs) = (width c + Wd cs)%nat) by reflexivity.
-  cbn [flat_map] in *. rewrite valid_run_app in Hv. apply andb_true_iff in Hv. destruct Hv as [Hv1 Hv2].
-  rewrite loop_app. cbn [fst snd].
-  set (T1 := snd (loop (pmk c) T ws)) in *. set (b1 := fst (loop (pmk c) T ws)).
+  cbn [flat_map] in *. apply svalid_run_app in Hv. destruct Hv as [Hv1 Hv2].
+  rewrite sloop_app. cbn [fst snd].
+  set (T1 := snd (sloop (pmk c) T ws)) in *. set (b1 := fst (sloop (pmk c) T ws)).
   set (ws' := skipn (length (pmk c)) ws) in *.
-  set (T2 := snd (loop (flat_map pmk cs) T1 ws')). set (b2 := fst (loop (flat_map pmk cs) T1 ws')).
+  set (T2 := snd (sloop (flat_map pmk cs) T1 ws')). set (b2 := fst (sloop (flat_map pmk cs) T1 ws')).
   destruct (Hc T ws n Hr ltac:(lia) Hv1) as [Hr1 Heq1]. fold T1 in Hr1, Heq1. fold b1 in Heq1.
   destruct (Hcs T1 ws' (n - width c + 1)%nat Hr1 ltac:(lia) Hv2) as [Hr2 Heq2]. fold T2 in Hr2, Heq2. fold b2 in Heq2.
-  assert (Lb1 : length b1 = size c) by (unfold b1; now rewrite loop_length, pmk_length).
+  assert (Lb1 : length b1 = size c) by (unfold b1; now rewrite sloop_length, pmk_length).
   split.
   - cbn [length]. replace (n - Wd (c :: cs) + S (length cs))%nat with (n - width c + 1 - Wd cs + length cs)%nat by lia. exact Hr2.
   - intros G s Hs. cbn [length].
@@ -505,15 +651,15 @@ Lemma tree_ok_node k ch : Forall tree_ok ch -> tree_ok (Node k ch).
 Proof.
   intros Hch T ws n Hr Hw Hv. pose proof (forest_ok_all ch Hch) as HF.
   assert (EW : width (Node k ch) = (Wd ch + k)%nat) by reflexivity.
-  rewrite pmk_node in *. rewrite valid_run_app in Hv. apply andb_true_iff in Hv. destruct Hv as [Hv1 Hv2].
-  rewrite loop_app. cbn [fst snd].
-  set (T' := snd (loop (flat_map pmk ch) T ws)) in *. set (bsc := fst (loop (flat_map pmk ch) T ws)).
+  rewrite pmk_node in *. apply svalid_run_app in Hv. destruct Hv as [Hv1 Hv2].
+  rewrite sloop_app. cbn [fst snd].
+  set (T' := snd (sloop (flat_map pmk ch) T ws)) in *. set (bsc := fst (sloop (flat_map pmk ch) T ws)).
   set (ws' := skipn (length (flat_map pmk ch)) ws) in *.
   destruct (HF T ws n Hr ltac:(lia) Hv1) as [Hr' HeqF]. fold T' in Hr', HeqF. fold bsc in HeqF.
-  cbn [loop fst snd valid_run] in *. rewrite andb_true_r in Hv2.
-  set (w0 := hd ([], []) ws') in *. set (mk := (length ch, k)) in *.
+  cbn [sloop fst snd svalid_run] in *. destruct Hv2 as [Hv2 _].
+  set (w0 := hd (swit0 R) ws') in *. set (mk := (length ch, k)) in *.
   split.
-  - pose proof (step_rect _ mk T' w0 Hr' Hv2) as H. cbn [fst snd mk] in H. unfold rowwidth in H.
+  - pose proof (sstep_rect _ mk T' w0 Hr' Hv2) as H. cbn [fst snd mk] in H. unfold rowwidth in H.
     eapply rect_cast; [exact H|]. rewrite EW in *. clear - Hw.
     destruct ch as [|c0 ch0]; cbn [length Nat.eqb]; lia.
   - intros G s Hs.
@@ -523,13 +669,13 @@ Proof.
        | _ => den_forest R (@den R) ch bsc (firstn (length ch) sym) (firstn (Wd ch) s)
               * kdelta R (skipn (length ch) sym) (skipn (Wd ch) s)
        end).
-    transitivity (lsum (snd (step mk T' w0))
-       (fun y => snd y * Dout_of Drow (fst (step mk T' w0)) (olast y) * G (oinit y))).
+    transitivity (lsum (snd (sstep mk T' w0))
+       (fun y => snd y * Dout_of Drow (fst (sstep mk T' w0)) (olast y) * G (oinit y))).
     { apply lsum_ext. intros y _. rewrite den_node, last_last, removelast_last. reflexivity. }
-    rewrite (step_sound mk T' w0 Drow G Hv2). cbn [fst snd mk]. unfold prep, rowwidth.
+    rewrite (sstep_sound mk T' w0 Drow G Hv2). cbn [fst snd mk]. unfold prep, rowwidth.
     destruct ch as [|c0 ch0].
     + (* leaf *)
-      cbn [length Nat.eqb flat_map loop fst snd] in *. subst T'. rewrite lsum_map. apply lsum_ext. intros x _.
+      cbn [length Nat.eqb flat_map sloop fst snd] in *. subst T'. rewrite lsum_map. apply lsum_ext. intros x _.
       unfold rkey, ckey, Drow. cbn [fst snd firstn skipn Nat.add]. unfold Wd. cbn [map list_sum Nat.add]. reflexivity.
     + (* m >= 1 children *)
       set (m := length (c0 :: ch0)) in *. assert (Hm : m = S (length ch0)) by reflexivity.
@@ -555,19 +701,42 @@ Theorem all_trees_ok : forall t, tree_ok t.
 Proof. induction t as [k ch IH] using tree_ind'. now apply tree_ok_node. Qed.
 
 (* ---------------------------------------------------------------- the theorem *)
+Definition sfinal_den (tr : tree) (T : table) (sws : list (swit R)) (s : key) : R :=
+  lsum (snd (sconstruct tr T sws)) (fun y => snd y * den tr (fst (sconstruct tr T sws)) (olast y) s).
 Definition final_den (tr : tree) (T : table) (ws : list wit) (s : key) : R :=
   lsum (snd (construct tr T ws)) (fun y => snd y * den tr (fst (construct tr T ws)) (olast y) s).
+
+(* every node may use a vertex cover or a factorisation *)
+Theorem ttno_sound_table_gen : forall tr (T : table) sws,
+  rect (width tr) T -> svalid_run (pmk tr) T sws ->
+  forall s, length s = width tr -> sfinal_den tr T sws s = coeff T s.
+Proof.
+  intros tr T sws Hr Hv s Hs. unfold sfinal_den, sconstruct.
+  destruct (all_trees_ok tr T sws (width tr) Hr (le_n _) Hv) as [_ H].
+  specialize (H (fun _ => 1) s Hs).
+  transitivity (lsum T (fun x : trow => snd x * kdelta R (firstn (width tr) (fst x)) s * 1)).
+  - rewrite <- H. apply lsum_ext. intros; ring.
+  - unfold coeff. apply lsum_ext. intros x Hx. rewrite firstn_all2 by (rewrite (rect_len _ _ _ Hr Hx); lia). ring.
+Qed.
 
 Theorem ttno_sound_table : forall tr (T : table) ws,
   rect (width tr) T -> valid_run (pmk tr) T ws = true ->
   forall s, length s = width tr -> final_den tr T ws s = coeff T s.
 Proof.
-  intros tr T ws Hr Hv s Hs. unfold final_den, construct.
-  destruct (all_trees_ok tr T ws (width tr) Hr (le_n _) Hv) as [_ H].
-  specialize (H (fun _ => 1) s Hs).
-  transitivity (lsum T (fun x : trow => snd x * kdelta R (firstn (width tr) (fst x)) s * 1)).
-  - rewrite <- H. apply lsum_ext. intros; ring.
-  - unfold coeff. apply lsum_ext. intros x Hx. rewrite firstn_all2 by (rewrite (rect_len _ _ _ Hr Hx); lia). ring.
+  intros tr T ws Hr Hv s Hs.
+  rewrite <- (ttno_sound_table_gen tr T (map (@WG R) ws) Hr (svalid_run_WG _ _ _ Hv) s Hs).
+  unfold final_den, sfinal_den, construct, sconstruct. now rewrite sloop_WG.
+Qed.
+
+(* the qr algorithm (and any mixture): relative to exact factorisation witnesses; the final table is
+   what the code produces at the root, where gamma has one column: q = gamma, r = [[1]] *)
+Theorem ttno_sound_qr : forall tr (T : table) sws,
+  rect (width tr) T -> svalid_run (pmk tr) T sws ->
+  snd (sconstruct tr T sws) = [([O], 1)] ->
+  forall s, length s = width tr -> ttno_coeff tr (fst (sconstruct tr T sws)) s = coeff T s.
+Proof.
+  intros tr T sws Hr Hv Hfin s Hs. rewrite <- (ttno_sound_table_gen tr T sws Hr Hv s Hs).
+  unfold sfinal_den. rewrite Hfin. cbn [Ttno.lsum fst snd]. unfold olast, ttno_coeff. cbn [fst last]. ring.
 Qed.
 
 (* at the root the column part of every row is empty; the implementation's cover is the single
@@ -854,3 +1023,299 @@ Proof.
 Qed.
 
 End ChainMpo.
+
+(* ------------------------------------------------------------------ the cover at the root *)
+(* The orientation rule is GENERATED (Gen/RootCover.v).  With one unique column and n >= 1 unique
+   rows the columns are the U side; the column is matched in every maximum matching (it has an edge),
+   so no U vertex is free, the Koenig loop does not run, and the cover is {column}: no row selected. *)
+Lemma select_repeat_false {X} n (xs : list X) : select (repeat false n) xs = [].
+Proof. revert xs. induction n as [|n IH]; intros [|x xs]; cbn [repeat select]; auto. Qed.
+
+Theorem root_cover_orientation : forall (rowkeys : list key) (matchV : list (option nat)),
+  rowkeys <> [] -> In (Some O) matchV -> root_witness rowkeys matchV = Some ([], [[]]).
+Proof.
+  intros rowkeys matchV Hne Hm. unfold root_witness, root_cover_bools.
+  assert (Hru : RootCover.rows_are_U (Z.of_nat (length rowkeys)) 1%Z = false).
+  { unfold RootCover.rows_are_U. destruct rowkeys; [congruence|]. cbn [length]. apply Z.ltb_ge. lia. }
+  rewrite Hru. unfold konig_no_free.
+  assert (Hfree : RootCover.konig_free_U 1 matchV = []).
+  { unfold RootCover.konig_free_U. cbn [seq filter].
+    assert (E : existsb (fun m => match m with Some u' => Nat.eqb O u' | None => false end) matchV = true).
+    { apply existsb_exists. exists (Some O). split; [exact Hm|reflexivity]. }
+    rewrite E. reflexivity. }
+  rewrite Hfree. cbn [RootCover.konig_loop_runs length Z.of_nat Z.ltb Z.compare option_map].
+  unfold RootCover.konig_result, RootCover.konig_init, RootCover.unpack_cover. cbn [repeat map negb fst snd].
+  rewrite select_repeat_false. reflexivity.
+Qed.
+
+Section RootFactor.
+Variable R : CRing.
+(* hence the table left after the root step is the single row [0] with factor ONE: dropping `factor`
+   at the end of construct_symbolic_ttno loses nothing *)
+Theorem root_factor_one : forall tr (T : table R) ws (rowkeys : list key) (matchV : list (option nat)),
+  rowkeys <> [] -> In (Some O) matchV ->
+  Some (nth (size tr - 1) ws ([], [])) = root_witness rowkeys matchV ->
+  snd (construct tr T ws) = [([O], r1 R)].
+Proof.
+  intros tr T ws rowkeys matchV Hne Hm Hw. rewrite (root_cover_orientation rowkeys matchV Hne Hm) in Hw.
+  injection Hw as Hw. now apply root_final_table.
+Qed.
+End RootFactor.
+
+(* The other minimum cover of the one-edge graph -- the row -- is an admissible witness too, but then
+   the factor stays in the discarded table: a one-node tree, one term with factor 2. *)
+Definition refute_tree : tree := Node 1 [].
+Definition refute_table : table ZRing := [([5], 2%Z)].
+Definition refute_ws : list wit := [([[0; 5]], [])].
+Theorem root_factor_other_cover_refuted :
+  rect ZRing (width refute_tree) refute_table /\
+  valid_run (pmk refute_tree) refute_table refute_ws = true /\
+  length (fst (hd ([], []) refute_ws)) + length (snd (hd ([], []) refute_ws)) = 1 /\   (* as small as the column cover *)
+  snd (construct refute_tree refute_table refute_ws) = [([0], 2%Z)] /\                  (* factor 2 left behind *)
+  ttno_coeff refute_tree (fst (construct refute_tree refute_table refute_ws)) [5] <> coeff refute_table [5].
+Proof.
+  split; [repeat constructor|]. split; [reflexivity|]. split; [reflexivity|]. split; [reflexivity|].
+  vm_compute. discriminate.
+Qed.
+
+(* ------------------------------------------------------------------ bond labels *)
+Section ChargeProofs.
+Variable R : CRing.
+Variable pq : nat -> Z.
+Notation table := (table R).
+Notation trow := (trow R).
+Notation chg := (chg pq).
+Notation lab := (lab R pq).
+Notation labF := (lab_forest R lab).
+
+Lemma chg_app a b : chg (a ++ b) = (chg a + chg b)%Z.
+Proof. induction a as [|x a IH]; cbn [app Ttno.chg fold_right]; [reflexivity|]. fold (chg (a ++ b)) (chg a). rewrite IH. lia. Qed.
+
+Lemma nth_map_error {X Y} (f : X -> list Y) l i :
+  nth i (map f l) [] = match nth_error l i with Some c => f c | None => [] end.
+Proof. revert i. induction l as [|x l IH]; intros [|i]; cbn [map nth nth_error]; auto. Qed.
+
+Lemma enum_from_in {X} (l : list X) : forall n i x, In (i, x) (enum_from n l) -> exists k, i = n + k /\ nth_error l k = Some x.
+Proof.
+  induction l as [|a l IH]; intros n i x H; [destruct H|]. cbn [enum_from] in H. destruct H as [[= <- <-]|H].
+  - exists 0. split; [lia|reflexivity].
+  - destruct (IH _ _ _ H) as [k [-> E]]. exists (S k). split; [lia|exact E].
+Qed.
+
+Lemma one_site_charges w (t : table) rsel csel (C Q : key -> Z) (q : Z) :
+  (forall x, In x t -> (C (rkey R w x) + Q (ckey R w x))%Z = q) ->
+  nonredb R w t rsel csel = true ->
+  let ops := out_ops R w t rsel csel in
+  let C' := fun j => match nth j ops [] with [] => 0%Z | p :: _ => C (fst p) end in
+  (forall j p, In p (nth j ops []) -> C (fst p) = C' j) /\
+  (forall y, In y (snd (one_site w t rsel csel)) -> (C' (hd O (fst y)) + Q (tl (fst y)))%Z = q).
+Proof.
+  intros Hq Hnr ops C'.
+  set (Lc := fun c => map (fun x : trow => (rkey R w x, snd x))
+                 (filter (fun x => keqb (ckey R w x) c && negb (memb (rkey R w x) rsel)) t)).
+  assert (HLc : forall c p, In p (Lc c) -> C (fst p) = (q - Q c)%Z).
+  { intros c p Hp. unfold Lc in Hp. apply in_map_iff in Hp. destruct Hp as [x [<- Hx]]. apply filter_In in Hx.
+    destruct Hx as [Hx Hb]. apply andb_true_iff in Hb. destruct Hb as [Hb _].
+    destruct (keqb_spec (ckey R w x) c) as [<-|]; [|discriminate]. cbn [fst]. specialize (Hq x Hx). lia. }
+  assert (Hops : forall j, nth j ops [] =
+            match nth_error rsel j with
+            | Some r => [(r, r1 R)]
+            | None => match nth_error csel (j - length rsel) with Some c => Lc c | None => [] end
+            end).
+  { intros j. unfold ops, out_ops. destruct (nth_error rsel j) as [r|] eqn:E.
+    - assert (j < length rsel) by (apply nth_error_Some; congruence).
+      rewrite app_nth1 by (unfold out_rows; now rewrite map_length). unfold out_rows.
+      pose proof (nth_map_error (fun r0 : key => [(r0, r1 R)]) rsel j) as En. rewrite E in En. exact En.
+    - apply nth_error_None in E. rewrite app_nth2 by (unfold out_rows; now rewrite map_length).
+      unfold out_rows, out_cols. rewrite map_length. exact (nth_map_error Lc csel (j - length rsel)). }
+  split.
+  - intros j p Hp. unfold C'. rewrite Hops in *. destruct (nth_error rsel j) as [r|].
+    + destruct Hp as [<-|[]]. reflexivity.
+    + destruct (nth_error csel (j - length rsel)) as [c|]; [|destruct Hp].
+      rewrite (HLc c p Hp). destruct (Lc c) as [|p0 L] eqn:EL; [destruct Hp|].
+      symmetry. apply (HLc c). rewrite EL. now left.
+  - intros y Hy. cbn [one_site snd] in Hy. apply in_app_or in Hy. destruct Hy as [Hy|Hy].
+    + unfold new_rows in Hy. apply in_flat_map in Hy. destruct Hy as [[i r] [Hir Hy]].
+      apply in_map_iff in Hy. destruct Hy as [x [<- Hx]]. apply filter_In in Hx. destruct Hx as [Hx Hb].
+      cbn [fst snd] in *. destruct (keqb_spec (rkey R w x) r) as [<-|]; [|discriminate].
+      destruct (enum_from_in _ _ _ _ Hir) as [k [-> Ek]]. cbn [Nat.add hd tl]. unfold C'. rewrite Hops, Ek. cbn [fst].
+      now apply Hq.
+    + unfold new_cols in Hy. apply in_map_iff in Hy. destruct Hy as [[j c] [<- Hjc]]. cbn [fst snd hd tl].
+      destruct (enum_from_in _ _ _ _ Hjc) as [k [-> Ek]]. unfold C'. rewrite Hops.
+      assert (En : nth_error rsel (length rsel + k) = None) by (apply nth_error_None; lia).
+      rewrite En. replace (length rsel + k - length rsel) with k by lia. unfold key in *. rewrite Ek.
+      assert (Hin : In c csel) by (eapply nth_error_In; eassumption).
+      unfold nonredb in Hnr. rewrite forallb_forall in Hnr. specialize (Hnr c Hin).
+      apply existsb_exists in Hnr. destruct Hnr as [x [Hx Hb]].
+      assert (Hp0 : In (rkey R w x, snd x) (Lc c)).
+      { unfold Lc. apply in_map_iff. exists x. split; [reflexivity|]. apply filter_In. split; assumption. }
+      destruct (Lc c) as [|p0 L] eqn:EL; [destruct Hp0|].
+      assert (C (fst p0) = (q - Q c)%Z) by (apply (HLc c); rewrite EL; now left). lia.
+Qed.
+
+Lemma nonred_run_app l1 l2 : forall (t : table) ws,
+  nonred_run (l1 ++ l2) t ws = nonred_run l1 t ws && nonred_run l2 (snd (loop l1 t ws)) (skipn (length l1) ws).
+Proof.
+  induction l1 as [|a l1 IH]; intros t ws; cbn [app nonred_run loop length fst snd]; [reflexivity|].
+  rewrite IH, skipn_S_tl, andb_assoc. reflexivity.
+Qed.
+
+(* rectangular tables along a cover-only run (from the soundness development) *)
+Lemma loop_rect_tree t (T : table) ws n : rect R n T -> width t <= n -> valid_run (pmk t) T ws = true ->
+  rect R (n - width t + 1) (snd (loop (pmk t) T ws)).
+Proof.
+  intros Hr Hw Hv. destruct (all_trees_ok R t T (map (@WG R) ws) n Hr Hw (svalid_run_WG R _ _ _ Hv)) as [H _].
+  now rewrite sloop_WG in H.
+Qed.
+Lemma loop_rect_forest cs (T : table) ws n : rect R n T -> Wd cs <= n -> valid_run (flat_map pmk cs) T ws = true ->
+  rect R (n - Wd cs + length cs) (snd (loop (flat_map pmk cs) T ws)).
+Proof.
+  intros Hr Hw Hv.
+  assert (HF : forest_ok R cs) by (apply forest_ok_all, Forall_forall; intros; apply all_trees_ok).
+  destruct (HF T (map (@WG R) ws) n Hr Hw (svalid_run_WG R _ _ _ Hv)) as [H _]. now rewrite sloop_WG in H.
+Qed.
+
+Lemma lab_node k ch bs j :
+  lab (Node k ch) bs j = match nth j (last bs []) [] with [] => 0%Z | p :: _ => symchg R pq (Node k ch) bs (fst p) end.
+Proof. reflexivity. Qed.
+Lemma labF_cons c cs bs o os :
+  labF (c :: cs) bs (o :: os) = (lab c (firstn (size c) bs) o + labF cs (skipn (size c) bs) os)%Z.
+Proof. reflexivity. Qed.
+Lemma consistentb_node k ch bs :
+  consistentb R pq (Node k ch) bs =
+  forallb (fun j => forallb (fun p => Z.eqb (symchg R pq (Node k ch) bs (fst p)) (lab (Node k ch) bs j)) (nth j (last bs []) []))
+          (seq 0 (length (last bs [])))
+  && cons_forest R (consistentb R pq) ch (removelast bs).
+Proof. reflexivity. Qed.
+
+Definition qtree_ok (t : tree) : Prop := forall (T : table) ws n (Qr : key -> Z) (q : Z),
+  rect R n T -> width t <= n -> valid_run (pmk t) T ws = true -> nonred_run (pmk t) T ws = true ->
+  (forall x, In x T -> (chg (firstn (width t) (fst x)) + Qr (skipn (width t) (fst x)))%Z = q) ->
+  consistentb R pq t (fst (loop (pmk t) T ws)) = true /\
+  forall y, In y (snd (loop (pmk t) T ws)) -> (lab t (fst (loop (pmk t) T ws)) (olast R y) + Qr (oinit R y))%Z = q.
+
+Definition qforest_ok (cs : list tree) : Prop := forall (T : table) ws n (Qr : key -> Z) (q : Z),
+  rect R n T -> Wd cs <= n -> valid_run (flat_map pmk cs) T ws = true -> nonred_run (flat_map pmk cs) T ws = true ->
+  (forall x, In x T -> (chg (firstn (Wd cs) (fst x)) + Qr (skipn (Wd cs) (fst x)))%Z = q) ->
+  cons_forest R (consistentb R pq) cs (fst (loop (flat_map pmk cs) T ws)) = true /\
+  forall y, In y (snd (loop (flat_map pmk cs) T ws)) ->
+    (labF cs (fst (loop (flat_map pmk cs) T ws)) (lastn (length cs) (fst y)) + Qr (initn (length cs) (fst y)))%Z = q.
+
+Lemma qforest_ok_nil : qforest_ok [].
+Proof.
+  intros T ws n Qr q Hr _ _ _ Hq. cbn [flat_map loop fst snd length]. split; [reflexivity|].
+  intros y Hy. rewrite lastn_0, initn_0. specialize (Hq y Hy). unfold Wd in Hq.
+  change (list_sum (map width [])) with 0 in Hq. cbn [firstn skipn] in Hq. exact Hq.
+Qed.
+
+Lemma qforest_ok_cons c cs : qtree_ok c -> qforest_ok cs -> qforest_ok (c :: cs).
+Proof.
+  intros Hc Hcs T ws n Qr q Hr Hw Hv Hn Hq.
+  assert (EW : Wd (c :: cs) = width c + Wd cs) by reflexivity.
+  cbn [flat_map] in *. rewrite valid_run_app in Hv. apply andb_true_iff in Hv. destruct Hv as [Hv1 Hv2].
+  rewrite nonred_run_app in Hn. apply andb_true_iff in Hn. destruct Hn as [Hn1 Hn2].
+  rewrite loop_app. cbn [fst snd].
+  pose proof (loop_rect_tree c T ws n Hr ltac:(lia) Hv1) as Hr1.
+  set (T1 := snd (loop (pmk c) T ws)) in *. set (b1 := fst (loop (pmk c) T ws)).
+  set (ws' := skipn (length (pmk c)) ws) in *.
+  pose proof (loop_rect_forest cs T1 ws' (n - width c + 1) Hr1 ltac:(lia) Hv2) as Hr2.
+  set (T2 := snd (loop (flat_map pmk cs) T1 ws')) in *. set (b2 := fst (loop (flat_map pmk cs) T1 ws')).
+  assert (Lb1 : length b1 = size c) by (unfold b1; now rewrite loop_length, pmk_length).
+  (* the child, with the continuation = later siblings' columns and the rest *)
+  destruct (Hc T ws n (fun v => (chg (firstn (Wd cs) v) + Qr (skipn (Wd cs) v))%Z) q Hr ltac:(lia) Hv1 Hn1) as [Hk1 Hl1].
+  { intros x Hx. specialize (Hq x Hx). rewrite EW, firstn_plus, chg_app, <- skipn_skipn in Hq.
+    rewrite (skipn_skipn (Wd cs) (width c)). rewrite skipn_skipn in Hq. lia. }
+  fold T1 b1 in Hk1, Hl1.
+  (* the remaining siblings, with the continuation = this child's label and the rest *)
+  destruct (Hcs T1 ws' (n - width c + 1) (fun u => (lab c b1 (last u O) + Qr (removelast u))%Z) q Hr1 ltac:(lia) Hv2 Hn2) as [Hk2 Hl2].
+  { intros x Hx. pose proof (rect_len R _ _ _ Hr1 Hx) as Lx. specialize (Hl1 x Hx). unfold olast, oinit in Hl1.
+    rewrite last_skipn, removelast_skipn by lia. rewrite firstn_removelast in Hl1 by lia. lia. }
+  fold T2 b2 in Hk2, Hl2.
+  split.
+  - cbn [cons_forest]. rewrite firstn_app, Lb1, Nat.sub_diag, firstn_all2 by lia. cbn [firstn]. rewrite app_nil_r.
+    rewrite skipn_app, Lb1, Nat.sub_diag, skipn_all2 by lia. cbn [skipn app]. now rewrite Hk1, Hk2.
+  - intros y Hy. pose proof (rect_len R _ _ _ Hr2 Hy) as Ly. specialize (Hl2 y Hy). cbn [length].
+    rewrite (lastn_S _ _ O) by lia. rewrite initn_S by lia. rewrite labF_cons.
+    rewrite firstn_app, Lb1, Nat.sub_diag, firstn_all2 by lia. cbn [firstn]. rewrite app_nil_r.
+    rewrite skipn_app, Lb1, Nat.sub_diag, skipn_all2 by lia. cbn [skipn app]. lia.
+Qed.
+
+Lemma qforest_ok_all cs : Forall qtree_ok cs -> qforest_ok cs.
+Proof. induction 1; [apply qforest_ok_nil|now apply qforest_ok_cons]. Qed.
+
+Lemma qtree_ok_node k ch : Forall qtree_ok ch -> qtree_ok (Node k ch).
+Proof.
+  intros Hch T ws n Qr q Hr Hw Hv Hn Hq. pose proof (qforest_ok_all ch Hch) as HF.
+  assert (EW : width (Node k ch) = Wd ch + k) by reflexivity.
+  rewrite pmk_node in *. rewrite valid_run_app in Hv. apply andb_true_iff in Hv. destruct Hv as [Hv1 Hv2].
+  rewrite nonred_run_app in Hn. apply andb_true_iff in Hn. destruct Hn as [Hn1 Hn2].
+  rewrite loop_app. cbn [fst snd].
+  pose proof (loop_rect_forest ch T ws n Hr ltac:(lia) Hv1) as Hr'.
+  set (T' := snd (loop (flat_map pmk ch) T ws)) in *. set (bsc := fst (loop (flat_map pmk ch) T ws)).
+  set (ws' := skipn (length (flat_map pmk ch)) ws) in *.
+  destruct (HF T ws n (fun u => (chg (firstn k u) + Qr (skipn k u))%Z) q Hr ltac:(lia) Hv1 Hn1) as [HkF HlF].
+  { intros x Hx. specialize (Hq x Hx). rewrite EW, firstn_plus, chg_app in Hq. rewrite skipn_skipn. lia. }
+  fold T' bsc in HkF, HlF.
+  cbn [loop fst snd valid_run nonred_run] in *. rewrite andb_true_r in Hv2, Hn2.
+  set (w0 := hd ([], []) ws') in *. set (mk := (length ch, k)) in *.
+  cbn [fst snd] in Hn2.
+  set (C := fun sym : key => sym_charge R pq lab ch (bsc ++ [fst (step mk T' w0)]) sym).
+  destruct (valid_step_parts R _ _ _ Hv2) as [_ [_ [_ _]]].
+  (* charges of the prepared rows *)
+  assert (Hprep : forall x, In x (prep (fst mk) T') ->
+             (C (rkey R (rowwidth (fst mk) (snd mk)) x) + Qr (ckey R (rowwidth (fst mk) (snd mk)) x))%Z = q).
+  { intros x Hx. unfold prep in Hx. cbn [fst snd mk] in *. unfold C, sym_charge. rewrite removelast_last.
+    destruct ch as [|c0 ch0].
+    - cbn [length Nat.eqb flat_map loop fst snd] in *. apply in_map_iff in Hx. destruct Hx as [x0 [<- Hx0]].
+      unfold rkey, ckey, rowwidth. cbn [fst snd Nat.eqb Nat.add firstn skipn]. subst T'.
+      specialize (Hq x0 Hx0). rewrite EW in Hq. unfold Wd in Hq. cbn [map list_sum Nat.add] in Hq. exact Hq.
+    - set (m := length (c0 :: ch0)) in *. assert (Hm : Nat.eqb m 0 = false) by reflexivity. rewrite Hm in Hx.
+      apply in_map_iff in Hx. destruct Hx as [y [<- Hy]]. pose proof (rect_len R _ _ _ Hr' Hy) as Ly. fold m in Ly.
+      unfold key in Ly. specialize (HlF y Hy). fold m in HlF.
+      unfold rkey, ckey, rowwidth. rewrite Hm. cbn [fst snd]. rewrite roll_right_split by lia.
+      assert (Ll : length (lastn m (fst y)) = m) by (apply lastn_length; lia).
+      assert (E3 : forall X0 : list nat, firstn m (lastn m (fst y) ++ X0) = lastn m (fst y)).
+      { intros X0. rewrite firstn_app, Ll, Nat.sub_diag, firstn_all2 by lia. cbn [firstn]. now rewrite app_nil_r. }
+      assert (E4 : forall X0 : list nat, skipn m (lastn m (fst y) ++ X0) = X0).
+      { intros X0. rewrite skipn_app, Ll, Nat.sub_diag, skipn_all2 by lia. reflexivity. }
+      assert (E1 : firstn (m + k) (lastn m (fst y) ++ initn m (fst y)) = lastn m (fst y) ++ firstn k (initn m (fst y))).
+      { rewrite firstn_app, Ll. replace (m + k - m) with k by lia. now rewrite (firstn_all2 (n := m + k)) by lia. }
+      assert (E2 : skipn (m + k) (lastn m (fst y) ++ initn m (fst y)) = skipn k (initn m (fst y))).
+      { rewrite skipn_app, Ll. replace (m + k - m) with k by lia. now rewrite (skipn_all2 (n := m + k)) by lia. }
+      rewrite E1, E2, E3, E4. fold m. cbv beta in HlF. unfold key in *. lia. }
+  destruct (one_site_charges _ _ _ _ C Qr q Hprep Hn2) as [Hsame Hnew].
+  assert (Eown : last (bsc ++ [fst (step mk T' w0)]) [] = fst (step mk T' w0)) by apply last_last.
+  assert (Elab : forall j, lab (Node k ch) (bsc ++ [fst (step mk T' w0)]) j =
+                    match nth j (fst (step mk T' w0)) [] with [] => 0%Z | p :: _ => C (fst p) end).
+  { intros j. rewrite lab_node, Eown. reflexivity. }
+  split.
+  - rewrite consistentb_node, Eown, removelast_last, HkF, andb_true_r.
+    apply forallb_forall. intros j _. apply forallb_forall. intros p Hp. apply Z.eqb_eq.
+    rewrite Elab. rewrite step_fst in *. apply (Hsame j p Hp).
+  - intros y Hy. rewrite step_snd in Hy. apply in_map_iff in Hy. destruct Hy as [y0 [<- Hy0]].
+    specialize (Hnew y0 Hy0).
+    assert (E : exists j c, fst y0 = j :: c).
+    { destruct (one_site_shape R _ _ _ _ _ Hy0) as [[i [x [_ E]]]|[j [c [_ E]]]]; eauto. }
+    destruct E as [j [c E]]. unfold olast, oinit. cbn [fst]. rewrite E in *. rewrite roll_left1_cons, last_last, removelast_last.
+    cbn [hd tl] in Hnew. rewrite Elab, step_fst. exact Hnew.
+Qed.
+
+Theorem all_trees_qok : forall t, qtree_ok t.
+Proof. induction t as [k ch IH] using tree_ind'. now apply qtree_ok_node. Qed.
+
+(* All terms carry the same total charge q (in this component)  ==>  in every out-operator of every
+   node all summands are equally charged (the label `out_op[0].qn` does not depend on which summand
+   scipy lists first), and the root's label is q (= TTNO.qntot). *)
+Theorem ttno_qn_labels : forall tr (T : table) ws (q : Z),
+  rect R (width tr) T -> valid_run (pmk tr) T ws = true -> nonred_run (pmk tr) T ws = true ->
+  (forall x, In x T -> chg (fst x) = q) ->
+  consistentb R pq tr (fst (construct tr T ws)) = true /\
+  forall y, In y (snd (construct tr T ws)) -> lab tr (fst (construct tr T ws)) (olast R y) = q.
+Proof.
+  intros tr T ws q Hr Hv Hn Hq. unfold construct.
+  destruct (all_trees_qok tr T ws (width tr) (fun _ => 0%Z) q Hr (le_n _) Hv Hn) as [H1 H2].
+  - intros x Hx. rewrite firstn_all2 by (rewrite (rect_len R _ _ _ Hr Hx); lia). rewrite (Hq x Hx). lia.
+  - split; [exact H1|]. intros y Hy. specialize (H2 y Hy). lia.
+Qed.
+
+End ChargeProofs.
